@@ -38,7 +38,7 @@ def opt_record(o):
             "ndp": int(o["num_samples_data_point"]), "nprg": int(o["num_samples_prune_regraph"])}
 
 
-def events_for_spec(events):
+def events_for_spec(events, n=None):
     out = []
     for e in events:
         if e["ev"] == "clear_caches":
@@ -50,7 +50,11 @@ def events_for_spec(events):
         elif e["ev"] == "conc_update":
             out.append({"name": "conc_update"})
         elif e["ev"] == "append":
-            out.append({"name": "append", "iter": int(e["iter"])})
+            rec = {"name": "append", "iter": int(e["iter"])}
+            if n is not None and e.get("tree") is not None:
+                # Chain.tla's `whole`: the recorded tree holds every data point
+                rec["whole"] = bool(absstate.data_ids(e["tree"]) == set(range(n)))
+            out.append(rec)
     return out
 
 
@@ -71,7 +75,7 @@ def run_one(n, dims, seed, opts, grid=5, want_events=True, offset=0.0, data=None
     res, err = recorder.run_chain(data, seed, rec=rec, **o)
     out = {"error": err, "problems": [], "spec_trace": None, "n_entries": 0, "opts": o, "n": n, "dims": dims, "seed": seed}
     if rec is not None:
-        out["spec_trace"] = {"opt": opt_record(o), "events": events_for_spec(rec.events)}
+        out["spec_trace"] = {"opt": opt_record(o), "events": events_for_spec(rec.events, n)}
         out["events"] = rec.events
     if err:
         return out
